@@ -1,43 +1,368 @@
-//! C03 exploratory (to be replaced)
+//! C03 — Tiny v2 files round-trip and are written canonically.
+//! Implementation entry points: quill::tiny_v2::{write_string, read}.
 use fbh::gal::*;
 use fbh::mapmodel::*;
+use fbh::prng::Rng;
 use fbh::report::{guarded, Report};
 use fbh::Ctx;
+use quill::tree::mappings::Mappings;
+use quill::tree::names::Namespace;
+use std::panic::AssertUnwindSafe;
 
-fn rt(m: &MMappings) {
-	let q = to_quill::<2, NsAny>(m).unwrap();
-	let w = guarded(std::panic::AssertUnwindSafe(|| quill::tiny_v2::write_string(&q)));
-	println!("write: {:?}", w);
-	if let Ok(Ok(t)) = w {
-		let r = guarded(std::panic::AssertUnwindSafe(|| quill::tiny_v2::read::<2, NsAny>(t.as_bytes())));
-		match r {
-			Ok(Ok(q2)) => { let mut d = vec![]; let m2 = from_quill(&q2, &mut d); println!("read: {:?}\nequiv: {}", m2, m2.equiv(m)); }
-			other => println!("read: {:?}", other.map(|x| x.map(|_| ()))),
+// ---------- implementation calls ----------
+#[derive(Clone, Debug, PartialEq)]
+enum WRes { Ok(String), Err, Panic }
+type RRes = Result<Option<(MMappings, Vec<String>)>, String>; // Err = panic; None = Err(_)
+
+fn g_wres(w: &WRes) -> String {
+	match w { WRes::Ok(t) => format!("(WOk {})", gstr(&cps_str(t))), WRes::Err => "WErr".into(), WRes::Panic => "WPanic".into() }
+}
+fn g_rres(r: &RRes) -> String {
+	match r { Ok(Some((m, _))) => format!("(Ok {})", g_mappings(m)), _ => "Err".into() }
+}
+
+fn write_q<const N: usize>(q: &Mappings<N, NsAny>) -> WRes {
+	match guarded(AssertUnwindSafe(|| quill::tiny_v2::write_string(q))) {
+		Ok(Ok(s)) => WRes::Ok(s), Ok(Err(_)) => WRes::Err, Err(_) => WRes::Panic,
+	}
+}
+fn write_n<const N: usize>(m: &MMappings) -> anyhow::Result<WRes> { Ok(write_q(&to_quill::<N, NsAny>(m)?)) }
+fn read_n<const N: usize>(t: &[u8]) -> RRes {
+	guarded(AssertUnwindSafe(|| quill::tiny_v2::read::<N, NsAny>(t).ok().map(|q| { let mut d = vec![]; let m = from_quill(&q, &mut d); (m, d) })))
+}
+/// (what the tree looks like to the model, write result, read-back result) of a valid tree whose
+/// infos were damaged afterwards: `kind` 0 = first name of class i removed, 1 = info of class i
+/// replaced by that of class j, 2 = first name of a field / method removed
+fn damaged_n<const N: usize>(m: &MMappings, kind: usize, i: usize, j: usize) -> anyhow::Result<(MMappings, WRes, RRes)> {
+	let mut q = to_quill::<N, NsAny>(m)?;
+	let zero = Namespace::<N>::new(0)?;
+	match kind {
+		0 => { q.classes[i].info.names[zero] = None; }
+		1 => { let info = q.classes[j].info.clone(); q.classes[i].info = info; }
+		_ => {
+			let c = &mut q.classes[i];
+			if !c.fields.is_empty() { let k = j % c.fields.len(); c.fields[k].info.names[zero] = None; }
+			else if !c.methods.is_empty() { let k = j % c.methods.len(); c.methods[k].info.names[zero] = None; }
+		}
+	}
+	let mut d = vec![];
+	let seen = from_quill(&q, &mut d);
+	let w = write_q(&q);
+	let r = match &w { WRes::Ok(t) => read_n::<N>(t.as_bytes()), _ => Ok(None) };
+	Ok((seen, w, r))
+}
+
+macro_rules! with_n {
+	($n:expr, $f:ident, $($a:expr),*) => { match $n {
+		1 => $f::<1>($($a),*), 2 => $f::<2>($($a),*), 3 => $f::<3>($($a),*), 4 => $f::<4>($($a),*), 5 => $f::<5>($($a),*),
+		n => panic!("unsupported number of namespaces {n}"),
+	} };
+}
+fn impl_write(m: &MMappings) -> anyhow::Result<WRes> { with_n!(m.ns.len(), write_n, m) }
+fn impl_read(n: usize, t: &str) -> RRes { with_n!(n, read_n, t.as_bytes()) }
+
+// ---------- the hypotheses of the theorems, mirrored (checked against Coq by CHyp cases) ----------
+fn is_scalar(c: u32) -> bool { c < 0xD800 || (c > 0xDFFF && c < 0x110000) }
+fn scalar_only(s: &[u32]) -> bool { s.iter().all(|&c| is_scalar(c)) }
+fn no_tab_lf(s: &[u32]) -> bool { s.iter().all(|&c| c != 9 && c != 10) }
+fn cell_ok(s: &[u32]) -> bool { no_tab_lf(s) && s.last() != Some(&13) }
+fn unq(s: &[u32]) -> bool { !s.is_empty() && s.iter().all(|&c| !matches!(char::from_u32(c), Some('.' | ';' | '[' | '/'))) }
+fn valid_class(s: &[u32]) -> bool { s.first() != Some(&('[' as u32)) && s.split(|&c| c == '/' as u32).all(unq) }
+fn valid_method(s: &[u32]) -> bool { s == cps_str("<init>") || s == cps_str("<clinit>") || (unq(s) && !s.contains(&('<' as u32)) && !s.contains(&('>' as u32))) }
+fn names_textual(r: &NamesRow, valid: fn(&[u32]) -> bool) -> bool {
+	r.iter().all(|o| match o { Some(s) => cell_ok(s) && scalar_only(s) && valid(s), None => true })
+}
+fn desc_ok(s: &[u32]) -> bool { no_tab_lf(s) && scalar_only(s) }
+fn textual(m: &MMappings) -> bool {
+	m.ns.iter().all(|s| cell_ok(s)) && m.classes.iter().all(|c| names_textual(&c.names, valid_class)
+		&& c.fields.iter().all(|f| desc_ok(&f.desc) && names_textual(&f.names, unq))
+		&& c.methods.iter().all(|me| desc_ok(&me.desc) && names_textual(&me.names, valid_method)
+			&& me.params.iter().all(|p| names_textual(&p.names, unq))))
+}
+fn distinct<T: PartialEq>(v: &[T]) -> bool { (0..v.len()).all(|i| (i + 1..v.len()).all(|j| v[i] != v[j])) }
+fn wf(m: &MMappings) -> bool {
+	let n = m.ns.len();
+	let row = |r: &NamesRow| r.len() == n && r.iter().all(|o| o.as_ref().map_or(true, |s| !s.is_empty()));
+	let first = |r: &NamesRow| r.first().map_or(false, |o| o.is_some());
+	n >= 2 && m.ns.iter().all(|s| !s.is_empty())
+		&& m.classes.iter().all(|c| row(&c.names) && first(&c.names)
+			&& c.fields.iter().all(|f| row(&f.names) && first(&f.names))
+			&& distinct(&c.fields.iter().map(|f| (f.names.first().cloned(), f.desc.clone())).collect::<Vec<_>>())
+			&& c.methods.iter().all(|me| row(&me.names) && first(&me.names) && me.params.iter().all(|p| row(&p.names))
+				&& distinct(&me.params.iter().map(|p| p.index).collect::<Vec<_>>()))
+			&& distinct(&c.methods.iter().map(|f| (f.names.first().cloned(), f.desc.clone())).collect::<Vec<_>>()))
+		&& distinct(&m.classes.iter().map(|c| c.names.first().cloned()).collect::<Vec<_>>())
+}
+
+// ---------- generators ----------
+const DOCS: [&str; 22] = ["a comment", "two\nlines", "  leading spaces", "# hash", "blank\n\nline", "trailing ", "ünï\u{1F600}", "x",
+	"back\\nslash-n", "C:\\temp\\new", "ends with backslash\\", "\\", "\\\\", "tab\tinside", "\ttab first", "cr at end\r", "cr\rmiddle", "crlf\r\nline",
+	"", "\n", "\\t\\r\\n\\\\ literal", "nul\0"];
+fn rich_doc(rng: &mut Rng) -> Vec<u32> {
+	if rng.chance(1, 6) {
+		let alpha = ['\\', 'n', 't', 'r', '\n', '\t', '\r', 'a', ' '];
+		(0..rng.range(0, 6)).map(|_| *rng.pick(&alpha[..]) as u32).collect()
+	} else { cps_str(*rng.pick(&DOCS[..])) }
+}
+/// comments of every kind on every level, the mappings' own comment included
+fn enrich(rng: &mut Rng, m: &mut MMappings) {
+	let mut d = |rng: &mut Rng, doc: &mut Option<S>| { if rng.chance(1, 4) { *doc = Some(rich_doc(rng)); } };
+	if rng.chance(1, 3) { m.doc = Some(rich_doc(rng)); }
+	for c in &mut m.classes {
+		d(rng, &mut c.doc);
+		for f in &mut c.fields { d(rng, &mut f.doc); }
+		for me in &mut c.methods { d(rng, &mut me.doc); for p in &mut me.params { d(rng, &mut p.doc); } }
+	}
+}
+fn gen_valid(rng: &mut Rng, n: usize, big: bool) -> MMappings {
+	let mut cfg = GenCfg::new(n);
+	if big { cfg.max_classes = 12; cfg.max_members = 6; cfg.max_params = 4; }
+	if rng.chance(1, 6) { cfg.absent_12 = 9; }
+	let mut m = gen_mappings(rng, &cfg);
+	enrich(rng, &mut m);
+	// some parameter indices at the edges of usize
+	for c in &mut m.classes { for me in &mut c.methods { for p in &mut me.params {
+		if rng.chance(1, 12) { let i = *rng.pick(&[255u64, 65535, 4294967296, u64::MAX, 10, 100][..]); p.index = i; }
+	} } }
+	for c in &mut m.classes { for me in &mut c.methods { let mut seen = vec![]; me.params.retain(|p| { let k = !seen.contains(&p.index); seen.push(p.index); k }); } }
+	m
+}
+
+/// all the cells of a tree, for the hypothesis-violating streams
+fn cells_mut(m: &mut MMappings) -> Vec<(&'static str, &mut S)> {
+	let mut v: Vec<(&'static str, &mut S)> = vec![];
+	for s in &mut m.ns { v.push(("ns", s)); }
+	for c in &mut m.classes {
+		for o in &mut c.names { if let Some(s) = o { v.push(("class", s)); } }
+		for f in &mut c.fields { v.push(("desc", &mut f.desc)); for o in &mut f.names { if let Some(s) = o { v.push(("field", s)); } } }
+		for me in &mut c.methods {
+			v.push(("desc", &mut me.desc));
+			for o in &mut me.names { if let Some(s) = o { v.push(("method", s)); } }
+			for p in &mut me.params { for o in &mut p.names { if let Some(s) = o { v.push(("param", s)); } } }
+		}
+	}
+	v
+}
+/// damages one cell; returns the kind of damage
+fn violate_cell(rng: &mut Rng, m: &mut MMappings) -> Option<String> {
+	let mut cells = cells_mut(m);
+	if cells.is_empty() { return None; }
+	let k = rng.below(cells.len());
+	let (kind, s) = &mut cells[k];
+	let pos = rng.below(s.len() + 1);
+	let what = match rng.below(9) {
+		0 => { s.insert(pos, 9); "tab" }
+		1 => { s.insert(pos, 10); "lf" }
+		2 => { s.push(13); "cr-end" }
+		3 => { s.insert(pos.min(s.len().saturating_sub(1)), 13); "cr-inside" }
+		4 => { if *kind == "ns" { s.push('.' as u32); "dot(ns)" } else { s.insert(pos, *rng.pick(&['.' as u32, ';' as u32, '[' as u32][..])); "invalid-char" } }
+		5 => { if *kind == "ns" { s.push('/' as u32); "slash(ns)" } else { s.insert(pos, '/' as u32); if rng.chance(1, 2) { s.push('/' as u32); } "slash" } }
+		6 => { if *kind == "ns" { s.push('<' as u32); "lt(ns)" } else { s.insert(pos, *rng.pick(&['<' as u32, '>' as u32][..])); "angle" } }
+		7 => { if *kind == "ns" { s.push('x' as u32); "x(ns)" } else { s.insert(pos, *rng.pick(&[0xD800u32, 0xDFFF, 0xDC00][..])); "surrogate" } }
+		_ => { if *kind == "desc" { s.clear(); "empty-desc" } else { s.insert(0, '[' as u32); "bracket-first" } }
+	};
+	Some(format!("{kind}:{what}"))
+}
+
+// ---------- text mutations (the reader's Err classification) ----------
+fn mutate_text(rng: &mut Rng, text: &str, n: usize) -> (String, &'static str) {
+	let mut lines: Vec<String> = text.split('\n').map(|s| s.to_owned()).collect();
+	if lines.last().map_or(false, |l| l.is_empty()) { lines.pop(); }
+	if lines.is_empty() { lines.push(String::new()); }
+	let i = rng.below(lines.len());
+	let body = if lines.len() > 1 { 1 + rng.below(lines.len() - 1) } else { 0 };
+	let kind: &'static str;
+	match rng.below(24) {
+		0 => { lines[body].insert(0, '\t'); kind = "indent+1"; }
+		1 => { lines[body].insert_str(0, "\t\t"); kind = "indent+2"; }
+		2 => { if lines[body].starts_with('\t') { lines[body].remove(0); } kind = "indent-1"; }
+		3 => { let l = lines[body].clone(); lines.insert(body, l); kind = "dup-line"; }
+		4 => { lines.remove(i); kind = "del-line"; }
+		5 => { let j = rng.below(lines.len()); lines.swap(i, j); kind = "swap-lines"; }
+		6 => { let l = &mut lines[body]; let t = l.chars().take_while(|c| *c == '\t').count(); let rest: String = l[t..].to_owned();
+			let mut cs: Vec<&str> = rest.split('\t').collect(); let tag = *rng.pick(&["x", "cc", "", "C", "v", "tiny"][..]); cs[0] = tag; *l = "\t".repeat(t) + &cs.join("\t"); kind = "unknown-tag"; }
+		7 => { lines[body].push_str("\textra"); kind = "extra-cell"; }
+		8 => { lines[body].push('\t'); kind = "extra-empty-cell"; }
+		9 => { let l = &mut lines[body]; if let Some(p) = l.rfind('\t') { l.truncate(p); } kind = "drop-last-cell"; }
+		10 => { let l = &mut lines[body]; let t = l.chars().take_while(|c| *c == '\t').count(); let rest: String = l[t..].to_owned();
+			let mut cs: Vec<String> = rest.split('\t').map(|s| s.to_owned()).collect(); let k = rng.below(cs.len()); cs[k].clear(); *l = "\t".repeat(t) + &cs.join("\t"); kind = "empty-a-cell"; }
+		11 => { lines.insert(body, String::new()); kind = "empty-line"; }
+		12 => { let t = rng.range(1, 3); lines.insert(body, "\t".repeat(t)); kind = "tabs-only-line"; }
+		13 => { let t = rng.range(0, 4); lines.insert(body, "\t".repeat(t) + "c\tsecond comment"); kind = "insert-comment"; }
+		14 => { for l in &mut lines { l.push('\r'); } kind = "crlf"; }
+		15 => { let joined = lines.join("\n"); return (joined, "no-final-lf"); }
+		16 => { lines[0].insert(0, '\t'); kind = "header-indented"; }
+		17 => { lines[0] = lines[0].replacen(*rng.pick(&["tiny", "\t2", "\t0"][..]), *rng.pick(&["tiny2", "\t1", "\t", "Tiny"][..]), 1); kind = "header-version"; }
+		18 => { if rng.chance(1, 2) { lines[0].push_str("\tmore"); } else if let Some(p) = lines[0].rfind('\t') { lines[0].truncate(p); } kind = "header-ns-count"; }
+		19 => { let t = rng.range(2, 3); let idx = *rng.pick(&["+1", "01", "-1", "", "1x", "18446744073709551615", "18446744073709551616", "0", "+", " 1", "１"][..]);
+			let mut l = "\t".repeat(t) + "p\t" + idx; for _ in 0..n { l.push_str("\tq"); } lines.insert(body, l); kind = "param-index"; }
+		20 => { let t = rng.range(0, 2); let mut l = "\t".repeat(t) + *rng.pick(&["c", "f", "m", "p"][..]); for _ in 0..rng.range(0, n + 2) { l.push('\t'); l.push_str(*rng.pick(&["A", "I", "()V", "a/b", "a.b", "", "<init>", "<x>", "[I", "3"][..])); } lines.insert(body, l); kind = "insert-row"; }
+		21 => { lines[body].push('\r'); kind = "cr-at-line-end"; }
+		22 => { let l = &mut lines[body]; if let Some(p) = l.rfind('\t') { l.insert_str(p + 1, *rng.pick(&["\\", "\\x", "\\\\n", "a\\"][..])); } kind = "backslash-in-cell"; }
+		_ => { let l = lines[body].clone(); let t = l.chars().take_while(|c| *c == '\t').count(); lines.insert(body + 1, "\t".repeat(t + 1) + "x\tunknown child"); kind = "unknown-child"; }
+	}
+	let mut t = lines.join("\n"); t.push('\n');
+	(t, kind)
+}
+fn raw_text(rng: &mut Rng) -> String {
+	let toks = ["tiny", "\t", "\t", "\t", "\n", "\n", "\r", "2", "0", "a", "b", "c", "f", "m", "p", "A", "I", "1", "\\", "n", "\r\n"];
+	let mut s = String::new();
+	if rng.chance(3, 4) { s.push_str("tiny\t2\t0\ta\tb"); s.push_str(*rng.pick(&["\n", "\n", "\r\n", "", "\tc\n"][..])); }
+	for _ in 0..rng.range(0, 24) { s.push_str(*rng.pick(&toks[..])); }
+	s
+}
+
+// ---------- oracle ----------
+fn show_text(t: &str) -> String { t.replace('\\', "\\\\").replace('\t', "\\t").replace('\r', "\\r").replace('\n', "\\n\n") }
+fn replay(what: &str, m: Option<&MMappings>, text: Option<&str>, extra: &str) -> String {
+	let mut s = format!("property C03\nwhat: {what}\n");
+	if let Some(m) = m { s.push_str(&format!("mapping set (Rust debug): {m:?}\nmapping set (Gallina): {}\n", g_mappings(m))); }
+	if let Some(t) = text { s.push_str(&format!("text (\\t = TAB, \\r = CR, \\\\ = backslash, \\n = LF followed by a real line break):\n{}\n", show_text(t))); }
+	s.push_str(extra);
+	s
+}
+
+struct Tally { in_hyp: u64, out_hyp: u64 }
+
+/// one mapping set through the implementation: write, read back, other insertion orders, fixpoint.
+/// Emits the correspondence cases; applies the oracle when the set satisfies the hypotheses.
+fn through(r: &mut Report, rng: &mut Rng, m: &MMappings, stream: &str, orders: usize, tally: &mut Tally) {
+	let n = m.ns.len();
+	let hyp = wf(m) && textual(m);
+	r.case(stream, format!("CHyp {} {}", g_mappings(m), gbool(hyp)));
+	if hyp { tally.in_hyp += 1; } else { tally.out_hyp += 1; }
+	let w = match impl_write(m) {
+		Ok(w) => w,
+		Err(e) => { r.count(&format!("{stream}:not-constructible")); if hyp { r.violation(format!("a well-formed mapping set cannot be built as a quill tree: {e:#}"), replay("construction failed", Some(m), None, "")); } return; }
+	};
+	let rr: RRes = match &w { WRes::Ok(t) => impl_read(n, t), _ => Ok(None) };
+	r.case(stream, format!("CWriteRead {} {} {}", g_mappings(m), g_wres(&w), g_rres(&rr)));
+	let ok_rt = matches!(&rr, Ok(Some((m2, d))) if d.is_empty() && m2.equiv(m));
+	r.eval(&g_mappings(&m.canon()), m.size() > 0 && ok_rt);
+	r.count(&format!("{stream}:n={n}"));
+	r.count(&format!("{stream}:size={}", match m.size() { 0 => "0", 1..=5 => "1-5", 6..=20 => "6-20", 21..=60 => "21-60", _ => "61+" }));
+	r.count(&format!("{stream}:write={}", match &w { WRes::Ok(_) => "text", WRes::Err => "Err", WRes::Panic => "panic" }));
+	r.count(&format!("{stream}:roundtrip={}", if ok_rt { "ok" } else { "no" }));
+	if !hyp { return; }
+	// ---- the property, on the implementation alone ----
+	let text = match &w { WRes::Ok(t) => t.clone(), other => { r.violation(format!("write_string of a well-formed textual mapping set failed: {other:?}"), replay("write failed", Some(m), None, "")); return; } };
+	match &rr {
+		Err(p) => { r.violation(format!("read panicked on written text: {p}"), replay("read(write(M)) panicked", Some(m), Some(&text), "")); return; }
+		Ok(None) => { r.violation("read(write(M)) is an error".into(), replay("read(write(M)) = Err", Some(m), Some(&text), "")); return; }
+		Ok(Some((m2, desync))) => {
+			if !desync.is_empty() { r.violation(format!("read produced a node whose map key differs from its own first name: {desync:?}"), replay("key / info out of sync after read", Some(m), Some(&text), "")); }
+			if !m2.equiv(m) { r.violation("read(write(M)) differs from M".into(), replay("read(write(M)) is not M up to insertion order", Some(m), Some(&text), &format!("read back: {m2:?}\n"))); }
+			match impl_write(m2) {
+				Ok(WRes::Ok(t2)) if t2 == text => {}
+				other => r.violation("write(read(write(M))) differs from write(M)".into(), replay("not a fixed point", Some(m), Some(&text), &format!("second write: {other:?}\n"))),
+			}
+		}
+	}
+	for _ in 0..orders {
+		let s = shuffled(rng, m);
+		match impl_write(&s) {
+			Ok(WRes::Ok(t2)) if t2 == text => {}
+			other => r.violation("write depends on the insertion order".into(), replay("write(M) differs from write(M') for the same content in another insertion order", Some(m), Some(&text), &format!("other order: {s:?}\nits text: {other:?}\n"))),
+		}
+		r.count("orders-compared");
+	}
+	if orders > 0 {
+		// one of the other orders also goes to the model
+		let s = shuffled(rng, m);
+		if let Ok(w2) = impl_write(&s) { r.case("valid-shuffled", format!("CWrite {} {}", g_mappings(&s), g_wres(&w2))); }
+	}
+}
+
+/// a text through the reader; when it reads, the result is put through the property as well
+fn through_text(r: &mut Report, rng: &mut Rng, n: usize, text: &str, stream: &str, kind: &str, tally: &mut Tally) {
+	let rr = impl_read(n, text);
+	r.case(stream, format!("CRead {n} {} {}", gstr(&cps_str(text)), g_rres(&rr)));
+	match &rr {
+		Err(p) => { r.violation(format!("read panicked: {p}"), replay("read panicked", None, Some(text), &format!("namespaces: {n}\n"))); r.eval(text, false); }
+		Ok(None) => { r.count(&format!("{stream}:{kind}=Err")); r.eval(text, false); }
+		Ok(Some((m2, desync))) => {
+			r.count(&format!("{stream}:{kind}=Ok"));
+			r.eval(text, m2.size() > 0);
+			if !desync.is_empty() { r.violation(format!("read produced a node whose map key differs from its own first name: {desync:?}"), replay("key / info out of sync after read", None, Some(text), "")); }
+			if !wf(m2) { r.violation("read returned a mapping set that is not well-formed".into(), replay("read result not well-formed", Some(m2), Some(text), "")); }
+			through(r, rng, m2, "reread", 1, tally);
 		}
 	}
 }
 
-fn run(_ctx: &Ctx) -> anyhow::Result<Report> {
-	let r = Report::new("C03", "C03.Run");
-	let cls = |doc: Option<&str>| MClass { names: vec![Some(cps_str("A")), Some(cps_str("B"))], doc: doc.map(cps_str), fields: vec![], methods: vec![] };
-	let ns = vec![cps_str("a"), cps_str("b")];
-	for d in ["a\\nb", "a\\\\b", "tab\there", "cr\r", "mid\rdle", "nul\0x", "x\\"] {
-		println!("--- class doc {:?}", d);
-		rt(&MMappings { ns: ns.clone(), doc: None, classes: vec![cls(Some(d))] });
+pub fn run(ctx: &Ctx) -> anyhow::Result<Report> {
+	let mut r = Report::new("C03", "C03.Run");
+	r.shard_size = 400;
+	let mut rng = Rng::new(ctx.seed);
+	let mut tally = Tally { in_hyp: 0, out_hyp: 0 };
+	let (n_valid, orders, n_viol, n_mut, n_raw) = if ctx.thorough { (2400, 24, 1500, 6000, 3000) } else { (330, 4, 240, 900, 500) };
+	r.rule = format!("mapping sets with n in {{2,3,4}} namespaces from mapmodel::gen_mappings (0-6 classes, 0-4 fields and methods, 0-3 parameters, every 8th set up to 12/6/4; absent cells 1/3 or 3/4; $-nested, packaged, non-BMP names; parameter indices up to u64::MAX) with comments of 22 kinds plus random ones over {{backslash,n,t,r,LF,TAB,CR}} on every level including the mappings' own; each written, read back, re-written, and written again in {orders} other insertion orders (oracle: read(write M) = M up to order, equal text for every order, write(read(write M)) = write M). Streams outside the hypotheses: one damaged cell (TAB/LF/CR/invalid characters/surrogates/empty descriptor), trees whose infos lost their first name or duplicate another class. Reader: written texts with one of 24 line-level mutations, random token soup, wrong namespace count; every text that reads is put through the round trip again. Non-trivial: at least one class and the round trip succeeded (texts: read Ok with at least one class); distinct by canonical mapping set / by text.");
+
+	// 0. fixed inputs: the repository's fixtures and the two repaired defects
+	for (n, path) in [(2, "/repo/quill/tests/read_file_input_tiny_v2.txt"), (2, "/repo/quill/tests/remove_dummy_input.tiny"), (2, "/repo/quill/tests/remove_dummy_output.tiny"),
+		(3, "/repo/quill/tests/reorder_input.tiny"), (3, "/repo/quill/tests/reorder_output.tiny"), (2, "/repo/quill/tests/merge_input_a.tiny"), (2, "/repo/quill/tests/merge_input_b.tiny"), (3, "/repo/quill/tests/merge_output.tiny"),
+		(2, "/repo/quill/tests/extend_inner_class_names_input.tiny"), (2, "/repo/quill/tests/extend_inner_class_names_output.tiny"), (2, "/repo/quill/tests/remap_input.tiny")] {
+		match std::fs::read_to_string(path) {
+			Ok(t) => { for k in 1..=4 { through_text(&mut r, &mut rng, k, &t, "fixture", if k == n { "right-n" } else { "other-n" }, &mut tally); } }
+			Err(_) => r.notes.push(format!("fixture {path} not found")),
+		}
 	}
-	println!("--- top doc");
-	rt(&MMappings { ns: ns.clone(), doc: Some(cps_str("top")), classes: vec![cls(None)] });
-	println!("--- surrogate in name / desc");
-	let f = MField { desc: vec!['L' as u32, 0xD800, ';' as u32], names: vec![Some(cps_str("f")), Some(vec![0xDC00])], doc: None };
-	let mut c = cls(None); c.fields.push(f.clone());
-	rt(&MMappings { ns: ns.clone(), doc: None, classes: vec![c] });
-	let f = MField { desc: vec!['L' as u32, 0xD800, ';' as u32], names: vec![Some(cps_str("f")), None], doc: None };
-	let mut c = cls(None); c.fields.push(f);
-	rt(&MMappings { ns: ns.clone(), doc: None, classes: vec![c] });
-	for t in ["tiny\t2\t0\ta\tb\nc\tA\tB\n\tm\t()V\tx\ty\n\t\tp\t+1\t\tq\n\t\tp\t01\t\tq\n", "\ttiny\t2\t0\ta\tb\nc\tA\tB\r\n\n", "tiny\t2\t0\ta\tb\nc\tA\tB\n\tm\t()V\tx\ty\n\t\tp\t18446744073709551616\t\tq\n", "tiny\t2\t0\ta\tb\nc\tA\tB\n\tf\t\tx\ty\nc\tA/\tB\n", "tiny\t2\t0\ta\tb\nc\tA\tB\r"] {
-		let r = quill::tiny_v2::read::<2, NsAny>(t.as_bytes());
-		match r { Ok(q2) => { let mut d = vec![]; println!("{:?} => {:?}", t, from_quill(&q2, &mut d)); } Err(e) => println!("{:?} => Err {:#}", t, e) }
+	{
+		let cls = |doc: Option<&str>| MClass { names: vec![Some(cps_str("A")), Some(cps_str("B"))], doc: doc.map(cps_str), fields: vec![], methods: vec![] };
+		let ns = vec![cps_str("a"), cps_str("b")];
+		// F1 (repaired by 1ac2bb2): backslash followed by n;  F2 (repaired by 29d9cf3): the mappings' own comment
+		for d in ["a\\nb", "tab\there", "cr\r", "\\"] { through(&mut r, &mut rng, &MMappings { ns: ns.clone(), doc: None, classes: vec![cls(Some(d))] }, "regress", 1, &mut tally); }
+		through(&mut r, &mut rng, &MMappings { ns: ns.clone(), doc: Some(cps_str("top")), classes: vec![cls(None)] }, "regress", 1, &mut tally);
+		through(&mut r, &mut rng, &MMappings { ns: ns.clone(), doc: Some(cps_str("top\\nx\ty")), classes: vec![] }, "regress", 1, &mut tally);
 	}
+
+	// 1. inside the hypotheses
+	let mut texts: Vec<(usize, String)> = vec![];
+	for i in 0..n_valid {
+		let n = 2 + i % 3;
+		let m = gen_valid(&mut rng, n, i % 8 == 7);
+		through(&mut r, &mut rng, &m, "valid", orders, &mut tally);
+		for c in &m.classes {
+			for row in std::iter::once(&c.names).chain(c.fields.iter().map(|f| &f.names)).chain(c.methods.iter().map(|f| &f.names)) {
+				r.count_n("valid:absent-cells", row.iter().filter(|o| o.is_none()).count() as u64);
+				r.count_n("valid:present-cells", row.iter().filter(|o| o.is_some()).count() as u64);
+			}
+		}
+		if let Ok(WRes::Ok(t)) = impl_write(&m) { if texts.len() < 400 { texts.push((n, t)); } }
+	}
+
+	// 2. outside the hypotheses, one stream per hypothesis
+	for i in 0..n_viol {
+		let n = 2 + i % 3;
+		let mut m = gen_valid(&mut rng, n, false);
+		if m.classes.is_empty() { continue; }
+		if i % 4 != 3 {
+			if let Some(kind) = violate_cell(&mut rng, &mut m) { r.count(&format!("violate-cell:{kind}")); through(&mut r, &mut rng, &m, "violate-cell", 0, &mut tally); }
+		} else {
+			let (kind, ci, cj) = (rng.below(3), rng.below(m.classes.len()), rng.below(m.classes.len()));
+			if let Ok((seen, w, rr)) = with_n!(n, damaged_n, &m, kind, ci, cj) {
+				r.count(&format!("violate-wf:{}:read={}", ["no-first-class-name", "duplicate-class-info", "no-first-member-name"][kind], match &rr { Ok(Some(_)) => "Ok", _ => "Err" }));
+				r.case("violate-wf", format!("CHyp {} {}", g_mappings(&seen), gbool(wf(&seen) && textual(&seen))));
+				r.case("violate-wf", format!("CWriteRead {} {} {}", g_mappings(&seen), g_wres(&w), g_rres(&rr)));
+				r.eval(&g_mappings(&seen), false);
+			}
+		}
+	}
+
+	// 3. the reader on damaged texts
+	for i in 0..n_mut {
+		let (n, t) = &texts[rng.below(texts.len())];
+		let (mut t2, kind) = mutate_text(&mut rng, t, *n);
+		if i % 5 == 4 { let (t3, _) = mutate_text(&mut rng, &t2, *n); t2 = t3; }
+		let n_read = if rng.chance(1, 25) { rng.range(1, 5) } else { *n };
+		through_text(&mut r, &mut rng, n_read, &t2, "mutated", if n_read == *n { kind } else { "other-n" }, &mut tally);
+	}
+	for _ in 0..n_raw {
+		let t = raw_text(&mut rng);
+		through_text(&mut r, &mut rng, 2, &t, "raw", "soup", &mut tally);
+	}
+	r.count_n("inside-hypotheses", tally.in_hyp);
+	r.count_n("outside-hypotheses", tally.out_hyp);
 	Ok(r)
 }
 
